@@ -222,7 +222,7 @@ func reg(id string, w cyc.Which, g Gen, rule string) {
 		Rule: rule,
 		Real: realCycle, Stub: stubCycle,
 		SchedLabels: []string{"release", "map_salt?", "map_salt.a", "map_salt.b", "rand_seed", "replica_seed", "inject_fault", "fault_kind", "fault_pod", "hold_scrape", "pod_order"},
-		Assume: []string{"sidecar reports are restricted to what a sidecar can produce (idle-since iff empty, process = sum of totals, head >= sum of series) plus a small optional skew", "map ranges inside third-party packages keep Go's random order (shown harmless by the determinism self-check)"},
+		Assume:      []string{"sidecar reports are restricted to what a sidecar can produce (idle-since iff empty, process = sum of totals, head >= sum of series) plus a small optional skew", "map ranges inside third-party packages keep Go's random order (shown harmless by the determinism self-check)"},
 	})
 }
 
@@ -373,7 +373,7 @@ func init() {
 		Rule: "differential: the same generated two-replica scenario is run as [A,B], [B] and [A] with per-replica schedules (release order, map permutation salt, math/rand seed are functions of the replica's own seed), and everything sent to a replica's shards and shard manager must be identical; every C01/C04/C05/C07/C08 oracle is also evaluated per replica on the two-replica trace; a case is (state class of the other replica: list-fails/scale-fails/nothing-in-sync/coordinated) x (own class) x (received requests?)",
 		Real: realCycle, Stub: stubCycle,
 		SchedLabels: []string{"release", "map_salt?", "map_salt.a", "map_salt.b", "rand_seed", "replica_seed", "inject_fault", "fault_kind", "fault_pod", "hold_scrape", "pod_order"},
-		Assume: []string{"replicas are coordinated one after another in the order the replicas manager lists them (so a per-replica re-seed at listing time gives each replica its own schedule)"},
+		Assume:      []string{"replicas are coordinated one after another in the order the replicas manager lists them (so a per-replica re-seed at listing time gives each replica its own schedule)"},
 	})
 	reg("C04", cyc.Which{C04: true}, Gen{Replicas: 1, ReqFaults: true}, cycleRule+"a case is one (target copy pattern, scrape classes, active?) x (decision: placed/removed/restate); trivial = nothing placed, moved or removed")
 	reg("C05", cyc.Which{C05: true}, Gen{Replicas: 1, ReqFaults: true}, cycleRule+"a case is one (target copy pattern incl. scrape classes of source and destination) x decision; trivial = no copy in transfer and no move")
@@ -386,6 +386,6 @@ func init() {
 		Rule: "one real coordination cycle per run over a generated scenario (options, 1-5 shards with readiness/request outcomes/config-hash relation/load reports, 1-8 targets with copy patterns incl. duplicates, pending and stuck transfers, explorer results) under a drawn completion order of the parallel requests, drawn map-iteration permutation and math/rand seed; a case is one (target copy pattern over in-sync/out-of-sync shards, scrape classes, active?) x (decision: placed/removed/restate); trivial = single copy kept or untouched target",
 		Real: realCycle, Stub: stubCycle,
 		SchedLabels: []string{"release", "map_salt?", "map_salt.a", "map_salt.b", "rand_seed", "replica_seed", "inject_fault", "fault_kind", "fault_pod", "hold_scrape", "pod_order"},
-		Assume: []string{"sidecar reports are restricted to what a sidecar can produce (idle-since iff empty, process = sum of totals, head >= sum of series) plus a small optional skew", "map ranges inside third-party packages keep Go's random order (shown harmless by the determinism self-check)"},
+		Assume:      []string{"sidecar reports are restricted to what a sidecar can produce (idle-since iff empty, process = sum of totals, head >= sum of series) plus a small optional skew", "map ranges inside third-party packages keep Go's random order (shown harmless by the determinism self-check)"},
 	})
 }
